@@ -201,6 +201,42 @@ def nlcomp_case(rng):
     return {'kind': 'nlcomp', 'B': mk(), 'C': mk(), 'method': method, 'points': pts}
 
 
+def multi_case(rng):
+    """arrow-head total jacobian split over several response components that share the design variable:
+    a diagonal + dense-column block (constraints) in one component, dense rows (objective, more constraints)
+    in others; bidirectional colouring needs fewer solves than min(n_dv, n_resp)"""
+    n = rng.randrange(4, 9)
+    dense_cols = rng.sample(range(n), rng.choice([1, 1, 2]))
+    v = lambda: rng.randrange(1, 10)
+    diag_rows = [i for i in range(n) if i not in dense_cols] if rng.random() < 0.5 else list(range(n - 1))
+    D = []
+    for i in diag_rows:
+        row = [0] * n
+        row[i] = v()
+        for dc in dense_cols:
+            row[dc] = v()
+        if rng.random() < 0.1:
+            row[rng.randrange(n)] = v()
+        D.append(row)
+    blocks = [D]
+    for _ in range(rng.choice([1, 1, 2])):            # components with dense rows
+        blocks.append([[v() for _ in range(n)] for _ in range(rng.choice([1, 1, 2]))])
+    if rng.random() < 0.3:                            # a second sparse component
+        blocks.append([[v() if (j == i or j in dense_cols) else 0 for j in range(n)]
+                       for i in rng.sample(range(n), 2)])
+    order = list(range(len(blocks)))
+    if rng.random() < 0.5:
+        rng.shuffle(order)
+        blocks = [blocks[k] for k in order]
+    dense_idx = [k for k, B in enumerate(blocks) if all(all(x != 0 for x in r) for r in B)]
+    sc = lambda m: [rng.choice([1, 2, 4, 0.5]) for _ in range(m)]
+    return {'kind': 'totals_multi', 'blocks': blocks, 'obj': rng.choice(dense_idx) if dense_idx else 0,
+            'x': [rng.randrange(-3, 4) for _ in range(n)], 'direct': rng.random() < 0.5,
+            'mode': rng.choice([None, None, None, 'fwd', 'rev']),
+            'dv_scaler': rng.choice([None, None, sc(n)]),
+            'con_scaler': rng.choice([None, None, sc(len(blocks[0]))]), 'ds': rng.random() < 0.3}
+
+
 class C03(Spec):
     pid = 'C03'
     imports = ['C03.Model']
@@ -220,7 +256,9 @@ class C03(Spec):
             'scalers and coloured fd partials; histories of compute_totals calls (driver order first, so that the driver '
             'colouring is cached, then custom / reordered / subset of and wrt lists) coloured vs uncoloured; ExecComp '
             'built-in colouring and declare_coloring on cs/fd partials with the sparsity sampled at a degenerate point '
-            '(inputs exactly 0, vanishing derivatives) and re-linearised elsewhere, vs the uncoloured twin; a case is '
+            '(inputs exactly 0, vanishing derivatives) and re-linearised elsewhere, vs the uncoloured twin; arrow-head '
+            'totals split over several response components sharing one design variable with the problem mode left at '
+            'its default (bidirectional driver colouring, fwd and rev solves in one compute_totals); a case is '
             'non-trivial when distinct')
     assumptions = ['the linear solves that produce the compressed products are replaced by exact matrix products '
                    '(M @ seed); their correctness is property C01',
@@ -260,6 +298,8 @@ class C03(Spec):
             cases.append(execcomp_case(rng))
         for _ in range(30 if quick else 200):
             cases.append(nlcomp_case(rng))
+        for _ in range(50 if quick else 400):
+            cases.append(multi_case(rng))
         return cases
 
     def search_gen(self, tier, rng):
